@@ -158,4 +158,43 @@ func ruleGetRange(p *Prog, r *Report, rule string) {
 	}
 	r.Site(1)
 	r.Check(extra == 0, fnName(fn), "no-other-updates", "no other comparison decides the range", fmt.Sprintf("%v", found), p.Pos(fn.Pos()))
+	// converse ("exactly when"): the two bounds are independent — a table may extend the range on
+	// BOTH sides (level-0 inputs are ordered by number, not by key) — so whichever way one
+	// comparison goes, the other is still evaluated before the next table is looked at
+	cmpOf := func(field string) InstrPred {
+		return func(in ssa.Instruction) bool {
+			c, ok := in.(*ssa.Call)
+			if !ok || !isCallTo(c, "(*leveldb.iComparer).Compare") {
+				return false
+			}
+			_, fa, _, okA := fieldOfLoad(stripConv(c.Call.Args[1]))
+			_, isAcc := stripConv(c.Call.Args[2]).(*ssa.Phi)
+			return okA && isAcc && fa == field
+		}
+	}
+	for _, pr := range [][2]string{{"imin", "imax"}, {"imax", "imin"}} {
+		first, other := cmpOf(pr[0]), cmpOf(pr[1])
+		var hdr *ssa.BasicBlock
+		instrs(fn, func(_ *ssa.BasicBlock, _ int, in ssa.Instruction) {
+			if first(in) {
+				if ph, ok := stripConv(in.(*ssa.Call).Call.Args[2]).(*ssa.Phi); ok {
+					hdr = ph.Block()
+				}
+			}
+		})
+		if hdr == nil {
+			continue
+		}
+		r.Site(1)
+		nextTable := func(in ssa.Instruction) bool { return in.Block() == hdr && in == hdr.Instrs[0] }
+		// from after the first comparison to the next iteration without having evaluated the
+		// other one — unless the other one was evaluated before (order of the two is free)
+		w := findPath(after(fn, first), nil, other, nextTable)
+		before := findPath(after(fn, other), nil, first, nextTable)
+		if w != nil && before != nil {
+			r.Fail(fnName(fn), "bounds-independent:"+pr[1], "both bounds are compared for every table after the first", "a path goes on to the next table having compared "+pr[0]+" but not "+pr[1]+": a table that extends the range on both sides only moves one bound, and the compaction's input range is too small", p.posOfLast(w, nextTable), p.renderPath(w))
+		} else {
+			r.OK(fnName(fn), "bounds-independent:"+pr[1], "both bounds are compared for every table after the first")
+		}
+	}
 }
